@@ -141,6 +141,13 @@ def run(chk, repo: Repo):
     _r3(chk, repo)
     _r4(chk, repo)
     _r5(chk, repo)
+    chk.rule("C03-R6", "Gaussian gradient applies the precision in the orientation of the log-density: sqrtprec.T @ (sqrtprec @ residual)", floor=2)
+    from ..gram import gram_orientation
+    gram_orientation(chk, repo, "C03-R6", only={"Gaussian._gradient"})
+    chk.rule("C03-R7", "values memoised on a density (lazy caches read by gradient or log-density) are reset by every writer of the fields they "
+                       "were computed from, so gradient and log-density never refer to different parameter values", floor=2)
+    from ..cachecoh import cache_coherence
+    cache_coherence(chk, repo, "C03-R7", ("cuqi/distribution/", "cuqi/likelihood/", "cuqi/density/"))
 
 
 # ------------------------------------------------------------------------------------------------ R1
